@@ -112,8 +112,8 @@ class Case:
             if isinstance(e, (KeyboardInterrupt, SystemExit, MemoryError)):
                 raise
             tb = traceback.extract_tb(e.__traceback__)
-            where = [f"{fr.filename.split('/repo/')[-1]}:{fr.lineno}:{fr.name}" for fr in tb
-                     if "/repo/" in fr.filename][-3:]
+            where = [f"msdm/{fr.filename.split('/msdm/', 1)[-1]}:{fr.lineno}:{fr.name}" for fr in tb
+                     if "/msdm/" in fr.filename and "/site-packages/" not in fr.filename][-3:]
             f = dict(exc_type=type(e).__name__, exc_msg=str(e)[:300], where=where)
             if facts:
                 f.update(facts() if callable(facts) else facts)
